@@ -37,7 +37,10 @@
 
 // TODO: Other sizes? Does anyone need more than 5 slots?
 
+#[cfg(not(sighook_verif))]
 use std::cell::UnsafeCell;
+#[cfg(sighook_verif)]
+use signal_hook_registry::verif::cell::UnsafeCell;
 #[cfg(not(sighook_verif))]
 use std::sync::atomic::{AtomicU16, Ordering};
 #[cfg(sighook_verif)]
@@ -139,7 +142,7 @@ impl<T> Channel<T> {
     pub fn send(&self, val: T) {
         if let Some(empty_idx) = dequeue(&self.empty) {
             #[cfg(sighook_verif)]
-            signal_hook_registry::verif::event("cell_write", self.storage[empty_idx as usize - 1].get() as usize as u64, empty_idx as u64);
+            signal_hook_registry::verif::event("cell_write", &self.storage[empty_idx as usize - 1] as *const _ as usize as u64, empty_idx as u64);
             unsafe { *self.storage[empty_idx as usize - 1].get() = Some(val) };
             enqueue(&self.full, empty_idx);
         }
@@ -151,7 +154,7 @@ impl<T> Channel<T> {
     pub fn recv(&self) -> Option<T> {
         dequeue(&self.full).map(|idx| {
             #[cfg(sighook_verif)]
-            signal_hook_registry::verif::event("cell_take", self.storage[idx as usize - 1].get() as usize as u64, idx as u64);
+            signal_hook_registry::verif::event("cell_take", &self.storage[idx as usize - 1] as *const _ as usize as u64, idx as u64);
             let result = unsafe { &mut *self.storage[idx as usize - 1].get() }
                 .take()
                 .expect("Full slot with nothing in it");
